@@ -38,7 +38,8 @@ extractor looked for is missing.  On the tree before the repair of F7 this does 
 (`replayNewCeil = none` and `replaySpanCeil = none`) and nothing below compiles.
 Receive paths: in `ReadFrom` and in `readRecordOrCCS` the header's epoch and sequence number
 are copied into the MAC / additional-data input before `decrypt`, and the only
-`replayWindow.check` call comes after the only `decrypt` call and after the epoch comparison;
+`replayWindow.check` call comes after the only `decrypt` call and after the two epoch
+comparisons (older: drop, newer: new window);
 `ReadFrom` drops a record that fails `decrypt`. -/
 theorem C16_facts :
     goodParams P = true ∧
@@ -46,8 +47,8 @@ theorem C16_facts :
     Facts.dtlcp.defaultReplayWindowSize = 64 ∧
     Facts.dtlcp.replayNewShapeKnown = true ∧
     Facts.dtlcp.replayNewSitesUniform = true ∧
-    Facts.dtlcp.replayRxReadFromOrder = ["decrypt", "epoch", "check"] ∧
-    Facts.dtlcp.replayRxRecordOrder = ["decrypt", "epoch", "check"] ∧
+    Facts.dtlcp.replayRxReadFromOrder = ["decrypt", "epoch<", "epoch>", "check"] ∧
+    Facts.dtlcp.replayRxRecordOrder = ["decrypt", "epoch<", "epoch>", "check"] ∧
     Facts.dtlcp.replayRxReadFromDecryptFail = "discard" ∧
     Facts.dtlcp.replayRxSeqBound = true ∧
     Facts.missing = [] := by decide
